@@ -32,6 +32,11 @@ def scenarios_for(tier, triples=False):
             for iname, init in INITS:
                 calls = [menu(w)[c] for c in combo]
                 out.append(("%s || from: %s" % (" || ".join(c.label for c in calls), iname), init, calls))
+        if not triples:
+            # metadata document lock: two writers of one document, a writer of another document releases in between
+            # (the condition is shared by all documents: a waiter must re-check after it is woken)
+            calls = [step.StoreMeta(0, 0, "c"), step.StoreMeta(0, 1, "c"), step.StoreMeta(0, 1, None)]
+            out.append(("%s || from: %s" % (" || ".join(c.label for c in calls), INITS[1][0]), INITS[1][1], calls))
         return out
     return fn
 
